@@ -284,6 +284,7 @@ def _generic(d, sig):
     signs = sym('signs', on_getitem=lambda interp, me, idx: O.bsign(idx[0], idx[1], world['sig']))
     world['alg'] = sym('algebra', attrs={'d': d, 'blades': sym('blades', attrs={'e': one}), 'signs': signs})
     world['alg'].kvc_len = lambda: 2 ** d
+    world['alg'].attrs['pss'] = RefMV(world, {2 ** d - 1: IP({(): 1})})
     world['alg'].attrs['scalar'] = sym('alg.scalar', callable_result=lambda interp, me, a, k: RefMV(world, {0: IP.lift(a[0][0])} if a and a[0] and a[0][0] else {}))
     x = RefMV(world, {k: IP.var(k) for k in range(2 ** d)})
     return world, x
@@ -563,3 +564,130 @@ def vc_outerexp_generic(H, tier='quick'):
                 _ob(ctx, f'codegen_{name} == sum over {which} <= d of x^(wedge k) / k! on generic operands of every single grade >= 1 (and all of them together)',
                            not failing, meta={'failing_shapes': failing[:6]})
             H.run_paths(fuc, f'generic,d={d}', body)
+
+
+def _hodge(A, d, undual=False):
+    """default basis: hodge(e_I) = s e_{~I} with e_I ^ (s e_{~I}) = +pseudoscalar; unhodge is the inverse map"""
+    full = 2 ** d - 1
+    R = {}
+    for k, v in A.items():
+        if not undual:
+            s_ = O.reorder_sign(k, full ^ k)
+            R[full ^ k] = v if s_ > 0 else -v
+        else:
+            src = full ^ k                      # k = ~src, hodge(e_src) = s e_k  =>  unhodge(e_k) = s e_src
+            s_ = O.reorder_sign(src, k)
+            R[src] = v if s_ > 0 else -v
+    return R
+
+
+def vc_products_generic(H, tier='quick', only_ops=None):
+    """C03 / C05 on generic operands: the real bodies of codegen_gp/op/ip/lc/rc/sp/cp/acp/rp (codegen_product inlined) on generic
+    x and y of several shapes (generic, single grades, two-grade mixtures) return the grade projections of the reference
+    product stated in the property - as polynomial identities.  Complements the solver contracts (which are generic in the
+    dimension but only follow bodies that hand codegen_product a filter closure): a body with its own shortcuts (early exits
+    on the operands' grades, precomputed tables) is executed here."""
+    from fractions import Fraction
+    ops = tuple(o for o in ('gp', 'op', 'ip', 'lc', 'rc', 'sp', 'cp', 'acp', 'rp') if only_ops is None or o in only_ops)
+    fs = {n: H.fn(REL, f'codegen_{n}') for n in ops}
+    half = Fraction(1, 2)
+
+    def ref(name, X, Y, sig, d):
+        g = lambda f: _gp(X, Y, sig, filt=f)
+        if name == 'gp': return _gp(X, Y, sig)
+        if name == 'op': return g(lambda r, s_, t: t == r + s_)
+        if name == 'ip': return g(lambda r, s_, t: t == abs(r - s_))
+        if name == 'lc': return g(lambda r, s_, t: t == s_ - r)
+        if name == 'rc': return g(lambda r, s_, t: t == r - s_)
+        if name == 'sp': return g(lambda r, s_, t: t == 0)
+        if name in ('cp', 'acp'):
+            a, b = _gp(X, Y, sig), _gp(Y, X, sig)
+            R = {}
+            for k in set(a) | set(b):
+                v = (a.get(k, IP()) - b.get(k, IP())) if name == 'cp' else (a.get(k, IP()) + b.get(k, IP()))
+                R[k] = v * half
+            return {k: v for k, v in R.items() if v}
+        if name == 'rp':
+            hx, hy = _hodge(X, d), _hodge(Y, d)
+            return _hodge(_gp(hx, hy, sig, filt=lambda r, s_, t: t == r + s_), d, undual=True)
+        raise KeyError(name)
+    for d in (1, 2, 3, 4):
+        sigs = [list(s_) for s_ in itertools.product([1, -1, 0], repeat=d)]
+        if d == 3 and tier == 'quick':
+            sigs = [[1, 1, 1], [1, 1, -1], [0, 1, 1], [-1, -1, -1], [0, 0, 1], [1, -1, 0]]
+        if d == 4:
+            sigs = [[1, 1, 1, 1], [0, 1, 1, 1]] if tier == 'quick' else [[1, 1, 1, 1], [1, 1, 1, -1], [0, 1, 1, 1], [1, -1, 1, -1], [0, 0, 1, 1], [-1, -1, -1, -1]]
+        shapes = [('generic', lambda k: True)] + [(f'grade {g}', (lambda k, g=g: O.pc(k) == g)) for g in range(d + 1)]
+        if d >= 2:
+            shapes += [('grades 0+2', lambda k: O.pc(k) in (0, 2)), ('grades 1+%d' % d, lambda k, d=d: O.pc(k) in (1, d))]
+        for sig in sigs:
+            for name in ops:
+                def body(ctx, d=d, sig=sig, name=name, shapes=shapes):
+                    N = 2 ** d
+                    failing = []
+                    for xn, xf in shapes:
+                        for yn, yf in shapes:
+                            world, _ = _generic(d, sig)
+                            x = RefMV(world, {k: IP.var(k) for k in range(N) if xf(k)})
+                            y = RefMV(world, {k: IP.var(N + k) for k in range(N) if yf(k)})
+                            r = H.closure(Interp(ctx, source_name=REL), fs[name])(x, y)
+                            if isinstance(r, RefMV):
+                                got = r._need()
+                            elif isinstance(r, dict):
+                                got = {k: IP.lift(v) if not isinstance(v, IP) else v for k, v in r.items()}
+                            else:
+                                raise OutOfSubset(f'codegen_{name} returned {type(r).__name__}')
+                            got = {k: v for k, v in got.items() if v}
+                            want = ref(name, x.comp, y.comp, sig, d)
+                            bad = sorted(k for k in set(got) | set(want) if not (got.get(k, IP()) == want.get(k, IP())))
+                            if bad:
+                                failing.append((xn, yn, bad[:4]))
+                    _ob(ctx, f'codegen_{name} on generic operands of {len(shapes)}x{len(shapes)} shapes == its definition over the reference product '
+                        '(every coefficient the same polynomial)', not failing, meta={'failing_shapes': failing[:6]})
+                H.run_paths(fs[name], f'generic,d={d},signature={sig}', body)
+
+
+def vc_unary_generic(H, tier='quick', only_ops=None):
+    """C04 / C05 on generic operands: codegen_neg / reverse / involute / conjugate / hodge / unhodge / polarity / unpolarity return
+    the blade-wise maps (resp. the products with the pseudoscalar) the properties state, as polynomial identities; every
+    signature with d <= 3, two (thorough: six) with d = 4."""
+    ops = tuple(o for o in ('neg', 'reverse', 'involute', 'conjugate', 'hodge', 'unhodge', 'polarity', 'unpolarity') if only_ops is None or o in only_ops)
+    fs = {n: H.fn(REL, f'codegen_{n}') for n in ops}
+    for d in (1, 2, 3, 4):
+        sigs = [list(s_) for s_ in itertools.product([1, -1, 0], repeat=d)]
+        if d == 4:
+            sigs = [[1, 1, 1, 1], [0, 1, 1, 1]] if tier == 'quick' else [[1, 1, 1, 1], [1, 1, 1, -1], [0, 1, 1, 1], [1, -1, 1, -1], [0, 0, 1, 1], [-1, -1, -1, -1]]
+        for sig in sigs:
+            for name in ops:
+                def body(ctx, d=d, sig=sig, name=name):
+                    world, x = _generic(d, sig)
+                    full = 2 ** d - 1
+                    pss = {full: IP({(): 1})}
+                    sq = _gp(pss, pss, sig).get(0, IP())
+                    try:
+                        r = H.closure(Interp(ctx, source_name=REL), fs[name])(x)
+                        raised = None
+                    except ZeroDivisionError as e:
+                        r, raised = None, e
+                    if name == 'polarity' and not sq:
+                        _ob(ctx, 'polarity with a degenerate pseudoscalar (pss * pss == 0) raises ZeroDivisionError', raised is not None)
+                        if raised is not None:
+                            ctx.notes.append('expected-raise'); raise raised
+                        return r
+                    if raised is not None:
+                        raise raised
+                    got = r._need() if isinstance(r, RefMV) else {k: (IP.lift(v) if not isinstance(v, IP) else v) for k, v in r.items()} if isinstance(r, dict) else None
+                    if got is None:
+                        raise OutOfSubset(f'codegen_{name} returned {type(r).__name__}')
+                    got = {k: v for k, v in got.items() if v}
+                    X = x.comp
+                    want = {'neg': lambda: {k: -v for k, v in X.items()}, 'reverse': lambda: O.rev(X), 'involute': lambda: O.invo(X),
+                            'conjugate': lambda: O.conj(X), 'hodge': lambda: _hodge(X, d), 'unhodge': lambda: _hodge(X, d, undual=True),
+                            'unpolarity': lambda: _gp(X, pss, sig),
+                            'polarity': lambda: _gp(X, {full: sq}, sig)}[name]()          # pss^-1 = pss * (pss*pss), pss*pss = +-1
+                    want = {k: v for k, v in want.items() if v}
+                    bad = sorted(k for k in set(got) | set(want) if not (got.get(k, IP()) == want.get(k, IP())))
+                    _ob(ctx, f'codegen_{name} on a generic operand == its definition (blade-wise sign map / product with the pseudoscalar or its inverse)',
+                        not bad, meta={'differing_blades': bad[:8]})
+                    return r
+                H.run_paths(fs[name], f'generic,d={d},signature={sig}', body)
